@@ -486,6 +486,9 @@ def run(res: Results, idx: Index, tier: str) -> None:
 
 
 # ---------------------------------------------------------------------------------------------- R-C03f
+VALUE_TABLES_EXTRA = {"compute_cache": "LowerDimExpr memo: dimension expression -> ir.Value emitted in the scope"}
+
+
 def rule_f(res: Results, idx: Index) -> None:
     """Per-scope tables that map something to an ir.Value of the scope (symbolic-dim origins) are written on every
     binding.  A nested Loop / If body context that *shares* such a table with its parent (alias instead of copy) leaks
@@ -508,6 +511,8 @@ def rule_f(res: Results, idx: Index) -> None:
                             tables.add(t.value.attr)
     if not tables:
         raise AnalysisError("no value-bearing scope table (self.<table>[k] = SymbolicDimOrigin(...)) found in IRContext")
+    # memo tables of per-context helper objects whose entries are ir.Values of the scope (confirmed by reading)
+    tables |= VALUE_TABLES_EXTRA.keys()
     res.analysed["value_bearing_scope_tables"] = sorted(tables)
     n = 0
     for mod in idx.product_modules():
@@ -529,7 +534,11 @@ def rule_f(res: Results, idx: Index) -> None:
                     site = f"{mod.rel}:{st.lineno}"
                     copied = (isinstance(v, ast.Call) and ((call_name(v) or "") in ("dict", "copy.copy", "copy.deepcopy") or (isinstance(v.func, ast.Attribute) and v.func.attr == "copy"))) \
                         or isinstance(v, ast.DictComp) or (isinstance(v, ast.Dict) and any(k is None for k in v.keys))
-                    if copied:
+                    if mod.rel.endswith("function_scope.py"):
+                        # a FunctionProto cannot capture outer-scope values at all: not even a copy may be handed over
+                        res.violation("R-C03f", site, key, f"`{src(st, 80)}` gives the function-body context the parent's `{t.attr}` entries: they point at values of the enclosing graph, and an ONNX function cannot read "
+                                      "outer-scope values — a body that needs such a symbol must fail ('no origin registered') instead of emitting Shape(<parent value>) inside the function", fi.qualname)
+                    elif copied:
                         res.ok("R-C03f", site, key, f"`{src(v, 50)}` copies the parent's table", fi.qualname)
                     else:
                         res.violation("R-C03f", site, key, f"`{src(st, 80)}` makes the nested context share the parent's `{t.attr}` table: every binding inside the body overwrites the enclosing scope's entries with body-local values, which outer nodes then reference", fi.qualname)
